@@ -132,7 +132,7 @@ func genCase(r *sim.Rand, base []byte) C09Case {
 		nm = 0
 	}
 	for k := 0; k < nm; k++ {
-		m := C09Mut{Kind: sim.Pick(r, []string{"truncate", "torn", "drop", "dup", "zero", "flip", "bitflip", "lf", "emptyparam", "insert", "truncate", "drop"}), Off: off()}
+		m := C09Mut{Kind: sim.Pick(r, []string{"truncate", "torn", "drop", "dup", "zero", "flip", "bitflip", "lf", "emptyparam", "insert", "truncate", "drop", "hdrval", "hdrval"}), Off: off()}
 		switch m.Kind {
 		case "drop", "dup", "zero":
 			m.Len = 1 + r.Intn(40)
@@ -140,6 +140,8 @@ func genCase(r *sim.Rand, base []byte) C09Case {
 			m.Arg = string([]byte{byte(r.Intn(256))})
 		case "bitflip":
 			m.Len = r.Intn(8)
+		case "hdrval":
+			m.Arg = sim.Pick(r, []string{"undisclosed-recipients:;", "a:;, b:;", "group: ;", ";", ";;", " ", "", "=", "\"", "<>", "@", "<@>", "a@", "multipart/mixed", "multipart/mixed; boundary=", "multipart/mixed; boundary=\"\"", "text/plain; charset=", "text/plain; =", "; name=x", "attachment; filename", "attachment; filename=;", "inline;;;", "base64;", "=?UTF-8?q?", "=?x?b?=?=", "Mon, 99 Foo 2000", "\x00"})
 		case "insert":
 			m.Arg = sim.Pick(r, []string{`"`, ";", "=", "; filename=", `; filename=""`, "; filename=x", "\r\n", "\r\n\r\n", "--", "boundary=", "; charset=", "=?UTF-8?q?", ": ", "\x00", "Content-Type: multipart/mixed; boundary=x\r\n"})
 		}
@@ -215,6 +217,21 @@ func applyMuts(base, other []byte, muts []C09Mut) []byte {
 			}
 		case "insert":
 			b = append(b[:o:o], append([]byte(m.Arg), b[o:]...)...)
+		case "hdrval":
+			// replace the value of the header field whose line contains (or follows) the offset
+			ls := bytes.LastIndexByte(b[:o], '\n') + 1
+			c := bytes.IndexByte(b[ls:], ':')
+			e := bytes.IndexByte(b[ls:], '\n')
+			if c >= 0 && e >= 0 && c < e {
+				ve := ls + e
+				if ve > 0 && b[ve-1] == '\r' {
+					ve--
+				}
+				nb := append([]byte(nil), b[:ls+c+1]...)
+				nb = append(nb, ' ')
+				nb = append(nb, m.Arg...)
+				b = append(nb, b[ve:]...)
+			}
 		}
 	}
 	return b
@@ -439,7 +456,7 @@ func (p *c09) Shrink(scAny any) []any {
 
 func (p *c09) Info() PropInfo {
 	return PropInfo{
-		Rule: "per stored message (80% renderings of generated messages incl. awkward file names, 10% fixtures of /repo/testdata, 10% random bytes) 250 (thorough: 300) seeded cases, each = 0..3 storage faults {truncate, torn write with a second message, lost range, duplicated range, zeroed block, byte flip, bit flip, CRLF->LF from an offset, emptied parameter value, inserted token} at offsets biased (3:1) to positions next to ; = \" : - < > / , CR LF, read back through EMLToMsgFromReader with a reader of drawn chunking / (n>0, EOF) / error at an offset / (0,nil) runs, or through EMLToMsgFromString / EMLToMsgFromFile; evaluations = parses; distinct = distinct stored messages",
+		Rule: "per stored message (80% renderings of generated messages incl. awkward file names, 10% fixtures of /repo/testdata, 10% random bytes) 250 (thorough: 300) seeded cases, each = 0..3 storage faults {truncate, torn write with a second message, lost range, duplicated range, zeroed block, byte flip, bit flip, CRLF->LF from an offset, emptied parameter value, inserted token, header field value replaced by a degenerate one (empty groups, lone separators, half-finished parameters, ...)} at offsets biased (3:1) to positions next to ; = \" : - < > / , CR LF, read back through EMLToMsgFromReader with a reader of drawn chunking / (n>0, EOF) / error at an offset / (0,nil) runs, or through EMLToMsgFromString / EMLToMsgFromFile; evaluations = parses; distinct = distinct stored messages",
 		Assumptions: []string{"termination is judged by a 10 s wall-clock watchdog per parse of at most a few KiB, re-checked once before it is reported", "no statement about the value returned"},
 		Real:        []string{"go-mail eml.go (all three entry points) and the Msg setters it calls", "net/mail, mime, mime/multipart, mime/quotedprintable"},
 		Stubbed:     []string{"stored bytes (fault-injected)", "io.Reader (fault-injecting)", "corpus rendering runs on a virtual clock with seeded randomness"},
